@@ -225,6 +225,7 @@ impl PropReport {
                     "closed_fixpoint": s.closed,
                     "frontier_sizes": s.frontier_sizes,
                     "cap_hit": s.capped,
+                    "stateright_unique_states": s.stateright_states,
                     "wall_s": (s.wall_s * 1000.0).round() / 1000.0,
                     "violation_signatures": s.found.iter().map(|f| json!({"sig": f.sig, "count": f.count})).collect::<Vec<_>>(),
                 })
